@@ -249,11 +249,18 @@ impl DocumentBuilder {
         Ok(self.add(Value::Text(Text::new(content.to_string())), xot))
     }
 
-    fn cdata_text(&mut self, content: &str, xot: &mut Xot) -> Result<NodeId, ParseError> {
+    fn cdata_text(&mut self, content: &str, xot: &mut Xot) -> Result<Option<NodeId>, ParseError> {
         if let Some(last) = self.consolidate_text(content, xot) {
-            return Ok(last);
+            return Ok(Some(last));
         }
-        Ok(self.add(Value::Text(Text::new(content.to_string())), xot))
+        // an empty CDATA section is no character data at all; an empty text
+        // node could not be written back
+        if content.is_empty() {
+            return Ok(None);
+        }
+        Ok(Some(
+            self.add(Value::Text(Text::new(content.to_string())), xot),
+        ))
     }
 
     fn close_element_immediate(&mut self, xot: &mut Xot) -> NodeId {
@@ -740,8 +747,9 @@ impl Xot {
                         span_info.extend_text_span(node_id.into(), text.into());
                     }
                     Cdata { text, span: _ } => {
-                        let node_id = builder.cdata_text(text.as_str(), self)?;
-                        span_info.extend_text_span(node_id.into(), text.into());
+                        if let Some(node_id) = builder.cdata_text(text.as_str(), self)? {
+                            span_info.extend_text_span(node_id.into(), text.into());
+                        }
                     }
                     ElementStart {
                         prefix,
